@@ -105,6 +105,43 @@ type TCase struct {
 	Pts [][2]float64 `json:"pts"` // probe points as (s,t) in the unit square, mapped bilinearly into Src
 }
 
+// THist: several transforms built one after the other from related quadrilateral pairs (the same
+// pair with one corner moved, or an unrelated pair) and all kept alive; afterwards each transform
+// must still map its own source corners onto its own destinations.
+type THist struct {
+	Pairs [][2][8]float64 `json:"pairs"` // (src, dst)
+}
+
+func checkTHist(raw json.RawMessage) error {
+	var h THist
+	if err := json.Unmarshal(raw, &h); err != nil {
+		return fmt.Errorf("hx: %v", err)
+	}
+	trs := make([]*common.PerspectiveTransform, len(h.Pairs))
+	for i, pr := range h.Pairs {
+		s, d := pr[0], pr[1]
+		trs[i] = common.PerspectiveTransform_QuadrilateralToQuadrilateral(s[0], s[1], s[2], s[3], s[4], s[5], s[6], s[7], d[0], d[1], d[2], d[3], d[4], d[5], d[6], d[7])
+	}
+	for i, pr := range h.Pairs {
+		s, d := pr[0], pr[1]
+		if _, ok := solveProjective(s, d); !ok {
+			continue
+		}
+		scale := 0.0
+		for _, v := range d {
+			scale = math.Max(scale, math.Abs(v))
+		}
+		pts := append([]float64(nil), s[:]...)
+		trs[i].TransformPoints(pts)
+		for k := 0; k < 8; k++ {
+			if math.Abs(pts[k]-d[k]) > 1e-6*math.Max(1, scale) {
+				return fmt.Errorf("transform %d of %d built in one process: source corner %d maps to coordinate %v, its destination is %v (src %v dst %v; all pairs %v)", i+1, len(h.Pairs), k/2, pts[k], d[k], s, d, h.Pairs)
+			}
+		}
+	}
+	return nil
+}
+
 func relClose(got float64, want *big.Float, scale float64) bool {
 	w, _ := want.Float64()
 	return math.Abs(got-w) <= 1e-6*math.Max(1, scale)
@@ -484,6 +521,7 @@ func genQuad(t *rapid.T, label string, cx, cy, size float64) ([8]float64, string
 func TestCheck(t *testing.T) {
 	hx.Main(t, "C19", func(c *hx.Ctx) {
 		c.Register("transform", checkTransform)
+		c.Register("transform_history", checkTHist)
 		c.Register("sample", checkSample)
 		c.Register("nudge", checkNudge)
 		c.Register("edge", checkEdge)
@@ -498,6 +536,38 @@ func TestCheck(t *testing.T) {
 			raw, _ := json.Marshal(cs)
 			c.Note("transform_vs_projective_solve", "src="+k1+";dst="+k2, k1 == "perspective" || k2 == "perspective", hx.Hash(raw), func() any { return cs })
 			if err := c.Eval("transform", cs); err != nil {
+				t.Fatalf("%v", err)
+			}
+		})
+		c.Rapid("transform_histories", c.N(1500, 20000), func(t *rapid.T) {
+			src, _ := genQuad(t, "src", rapid.Float64Range(0, 100).Draw(t, "scx"), rapid.Float64Range(0, 100).Draw(t, "scy"), rapid.Float64Range(4, 120).Draw(t, "ssize"))
+			dst, _ := genQuad(t, "dst", rapid.Float64Range(0, 300).Draw(t, "dcx"), rapid.Float64Range(0, 300).Draw(t, "dcy"), rapid.Float64Range(4, 250).Draw(t, "dsize"))
+			h := THist{Pairs: [][2][8]float64{{src, dst}}}
+			n := rapid.IntRange(1, 4).Draw(t, "more")
+			oneCorner := 0
+			for i := 0; i < n; i++ {
+				s2, d2 := h.Pairs[len(h.Pairs)-1][0], h.Pairs[len(h.Pairs)-1][1]
+				switch rapid.IntRange(0, 3).Draw(t, "how") {
+				case 0: // an unrelated pair
+					s2, _ = genQuad(t, "src2", 50, 50, rapid.Float64Range(4, 120).Draw(t, "s2size"))
+					d2, _ = genQuad(t, "dst2", 150, 150, rapid.Float64Range(4, 250).Draw(t, "d2size"))
+				case 1: // one source corner moved a little
+					k := rapid.IntRange(0, 3).Draw(t, "corner")
+					s2[2*k] += rapid.Float64Range(-3, 3).Draw(t, "dx")
+					s2[2*k+1] += rapid.Float64Range(-3, 3).Draw(t, "dy")
+					oneCorner++
+				case 2: // one destination corner moved a little
+					k := rapid.IntRange(0, 3).Draw(t, "corner")
+					d2[2*k] += rapid.Float64Range(-6, 6).Draw(t, "dx")
+					d2[2*k+1] += rapid.Float64Range(-6, 6).Draw(t, "dy")
+					oneCorner++
+				default: // the same pair again
+				}
+				h.Pairs = append(h.Pairs, [2][8]float64{s2, d2})
+			}
+			raw, _ := json.Marshal(h)
+			c.Note("transform_histories", fmt.Sprintf("pairs=%d;one_corner_moved=%d", len(h.Pairs), min(oneCorner, 2)), len(h.Pairs) > 1, hx.Hash(raw), func() any { return h })
+			if err := c.Eval("transform_history", h); err != nil {
 				t.Fatalf("%v", err)
 			}
 		})
